@@ -6,6 +6,8 @@ import math
 
 import numpy as np
 
+from vlib.workloads.arrays import LAYOUTS, relayout
+
 PID = "C09"
 RULE = ("n = 1..12, ASYMMETRIC non-negative flow / distance matrices: random "
         "with entries scaled so that the trivial upper bound stays < 10^15, "
@@ -280,10 +282,14 @@ def run_shard(ctx, args):
             judge_instance(ctx, inst, F, D, case, tag, all_perms)
         else:
             df, dd = pick_dtype(rng, F), pick_dtype(rng, D)
+            lf, ld = (str(rng.choice(LAYOUTS + ("C",) * 3)) for _ in "fd")
             case = {"kind": "inst", "F": F, "D": D,
-                    "df": str(np.dtype(df)), "dd": str(np.dtype(dd))}
+                    "df": str(np.dtype(df)), "dd": str(np.dtype(dd)),
+                    "lf": lf, "ld": ld}
             ctx.case()
-            inst = Instance(np.array(D, dd), np.array(F, df))
+            ctx.count(f"input_layout[{lf}]")
+            inst = Instance(relayout(np.array(D, dd), ld),
+                            relayout(np.array(F, df), lf))
             judge_instance(ctx, inst, F, D, case, tag, all_perms)
         if it % 150 == 0:
             ctx.sample({"n": n, "tag": tag, "F": F[:3], "D": D[:3],
@@ -321,8 +327,9 @@ def replay(ctx, case):
     if case["kind"] == "text":
         inst = Instance.from_qaplib_stream(iter(case["lines"]))
     else:
-        inst = Instance(np.array(D, np.dtype(case["dd"])),
-                        np.array(F, np.dtype(case["df"])))
+        inst = Instance(
+            relayout(np.array(D, np.dtype(case["dd"])), case.get("ld", "C")),
+            relayout(np.array(F, np.dtype(case["df"])), case.get("lf", "C")))
     judge_instance(ctx, inst, F, D, {k: v for k, v in case.items()
                                      if k != "perm"}, "replay",
                    len(F) <= 6)
